@@ -41,6 +41,7 @@ def spec_to_code(rep, tier):
     for _ in range(k):
       text = T.render(toks, rng)
       rep.evaluations += 1
+      rep.behaviours_replayed += 1
       # (a) the token rendering is what CPython's tokenizer produces for the text
       got_toks = T.abstract(text)
       if got_toks != list(toks):
